@@ -704,6 +704,24 @@ func execGenSignal(a []string) string {
 	return res
 }
 
+// gen.burst <itf> <action> <eventsighex> <paramssighex> <n> params-tuple tokens: n emissions in a row, read afterwards
+func execGenBurst(a []string) string {
+	g, itf := c05Action_(a)
+	if g == nil || g.kind != "sig" {
+		return "no-action"
+	}
+	et := parseSigT(string(unhx(a[2])))
+	pt := parseSigT(string(unhx(a[3])))
+	pv, _ := parseTValTokens(a[5:])
+	line := fmt.Sprintf("signalburst %s %s %s %s %s %s", itf, g.helper, g.subscribe, et.String(), a[4], c05Pairs(pt.elems, pv.elems))
+	res := c05Cur.ask(strings.TrimSpace(line))
+	f := strings.Fields(res)
+	if len(f) == 3 && f[0] == "events" && f[2] != "differing" {
+		return "events " + f[1] + " " + c05RenderHex(et, f[2])
+	}
+	return res
+}
+
 // gen.prop <itf> <action> <valuesighex> <paramssighex> value tokens
 func execGenProp(a []string) string {
 	g, itf := c05Action_(a)
@@ -872,6 +890,7 @@ func init() {
 	executors["gen.pkg"] = execGenPkg
 	executors["gen.call"] = execGenCall
 	executors["gen.signal"] = execGenSignal
+	executors["gen.burst"] = execGenBurst
 	executors["gen.prop"] = execGenProp
 	executors["gen.update"] = execGenUpdate
 }
@@ -1094,6 +1113,16 @@ func runC05(r *Rand, tier string, o *Out) {
 							o.Fail("a signal emitted through the generated helper does not arrive: "+c05FailClass(res), fmt.Sprintf("%s.%s%s: %s", itf.name, a.name, pt.String(), res))
 						} else if res != want {
 							o.Fail("a signal emitted through the generated helper changes a value: "+c05Shape(pt), fmt.Sprintf("%s.%s%s: %s (want %s)", itf.name, a.name, pt.String(), res, want))
+						}
+						if r.Chance(12) {
+							// a burst: the subscriber reads only after the last emission
+							n := 12 + r.Intn(40)
+							bop := fmt.Sprintf("gen.burst %s %s %s %s %d %s", itf.name, a.name, hx([]byte(et.String())), hx([]byte(pt.String())), n, pv.tokens())
+							bres := o.Do("P", bop, true)
+							if bres != fmt.Sprintf("events %d %s", n, renderTValD(et, ev)) {
+								o.Fail("signals emitted in a row through the generated helper do not all arrive", fmt.Sprintf("%s.%s%s: %s (want events %d)", itf.name, a.name, pt.String(), bres, n))
+							}
+							o.Count("signal-bursts")
 						}
 					case "prop":
 						vt := pts[0]
